@@ -21,5 +21,6 @@ CONSTANTS
   ViaClasses = {"transaction", "with_kernel", "partial", "block"}
   CbFeeClasses = {"cf0", "cf1", "cftyp", "cfmax40", "cfmax64"}
   AlgStride = 1
+  CbStride = 5
   ShapeStride = 97
 INVARIANTS TypeOK BuilderBalances CoinbaseOK EmitShape
